@@ -59,13 +59,13 @@ type Policy struct {
 	Participation func(e common.Epoch) Pattern
 	// Rates: expected number per block of each operation kind (Poisson-ish: n = floor(rate) + Bernoulli(frac)).
 	ProposerSlashings, AttesterSlashings, NewDeposits, BadPoPDeposits, TopUps, Exits, BLSChanges float64
-	SyncParticipation float64 // mean; each block draws its own value around it (and sometimes 0 or 1)
-	Blobs             float64
-	Transactions      float64
-	OddVoteProb       float64
-	Eth1VoteNoise     float64
-	LateInclusionProb float64 // probability that an available attestation is held back for a later block
-	SplitProb         float64 // probability that a committee's attestation is included as two aggregates
+	SyncParticipation                                                                            float64 // mean; each block draws its own value around it (and sometimes 0 or 1)
+	Blobs                                                                                        float64
+	Transactions                                                                                 float64
+	OddVoteProb                                                                                  float64
+	Eth1VoteNoise                                                                                float64
+	LateInclusionProb                                                                            float64 // probability that an available attestation is held back for a later block
+	SplitProb                                                                                    float64 // probability that a committee's attestation is included as two aggregates
 	// MinActive: slashings and exits are not generated when fewer than this many validators would stay
 	// active. 0: max(2*SLOTS_PER_EPOCH, half of the genesis validators).
 	MinActive int
